@@ -74,6 +74,8 @@ fn gen_mapping(rng: &mut Rng, uses_time: bool) -> Vec<(String, Map)> {
         // an array-valued path (the edge id list) and an object-valued one: their JSON text holds commas and quotes
         ("path".into(), Map::Optional(Box::new(Map::Path("route.path".into())))),
         ("injected".into(), Map::Optional(Box::new(Map::Path("request.injected".into())))),
+        // the search's own error text (quotes, commas, sometimes embedded JSON)
+        ("failure".into(), Map::Optional(Box::new(Map::Path("error".into())))),
     ];
     if uses_time {
         pool.push(("time".into(), Map::Optional(Box::new(Map::Path("route.traversal_summary.time".into())))));
